@@ -959,6 +959,21 @@ def _elif_to_else_if(self: fst.FST, docstr: bool | Literal['strict'] = True) -> 
     self._put_src([indent + 'else:', indent + self.root.indent], ln, 0, ln, col, False)
 
 
+def _set_Try_type(self: fst.FST, new_type: type[AST]) -> None:
+    """Change `Try` <-> `TryStar` keeping the `FST` node and all the children."""
+
+    ast = self.a
+    new_ast = new_type(body=ast.body, handlers=ast.handlers, orelse=ast.orelse, finalbody=ast.finalbody,
+                       lineno=ast.lineno, col_offset=ast.col_offset,
+                       end_lineno=ast.end_lineno, end_col_offset=ast.end_col_offset)
+    new_ast.f = self  # FST remains same
+    self.a = new_ast  # point to new AST
+    ast.f = None  # clean up old AST
+
+    if pfield := self.pfield:  # if there is a parent then set new AST as the child replacing current child
+        pfield.set(self.parent.a, new_ast)
+
+
 def _can_del_all(self: fst.FST, field: str, options: Mapping[str, Any]) -> bool:
     """Whether can delete all elements of af a body list of children according to options or not."""
 
@@ -1031,6 +1046,9 @@ def _get_slice_stmtlike_old(
 
         for i in range(start, len(body)):
             body[i].f.pfield = astfield(field, i)
+
+        if not body and ast.__class__ is TryStar and field == 'handlers' and ast.finalbody:  # no `except*` left, what remains in the source is a Try
+            _set_Try_type(self, Try)
 
     if not one:
         if field == 'handlers':
@@ -1310,6 +1328,9 @@ def _put_slice_stmtlike_old(
 
         put_len = 0
 
+        if not body and ast_cls is TryStar and field == 'handlers' and ast.finalbody:  # no `except*` left, what remains in the source is a Try
+            _set_Try_type(self, Try)
+
     else:
         put_loc = _src_edit.put_slice_stmt(self, put_fst, put_body, field, block_loc, header_indent, block_indent,
                                            ffirst, flast, fpre, fpost,
@@ -1341,16 +1362,7 @@ def _put_slice_stmtlike_old(
             is_except_star = body[0].f.is_except_star() if body else False  # if no handler then we must change it to a Try if is TryStar
 
             if is_except_star != (ast_cls is TryStar):  # need to swap?
-                new_type = TryStar if is_except_star else Try
-                new_ast = new_type(body=ast.body, handlers=body, orelse=ast.orelse, finalbody=ast.finalbody,
-                                   lineno=ast.lineno, col_offset=ast.col_offset,
-                                   end_lineno=ast.end_lineno, end_col_offset=ast.end_col_offset)
-                new_ast.f = self  # FST remains same
-                self.a = new_ast  # point to new AST
-                ast.f = None  # clean up old AST
-
-                if pfield := self.pfield:  # if there is a parent then set new AST as the child replacing current child
-                    pfield.set(self.parent.a, new_ast)
+                _set_Try_type(self, TryStar if is_except_star else Try)
 
     for i in range(start + put_len, len(body)):
         body[i].f.pfield = astfield(field, i)
